@@ -89,6 +89,14 @@ Proof.
   - apply ip_inv_close. revert H. apply ip_inv_same; reflexivity.
 Qed.
 
+Lemma ip_inv_deliver_bad : forall s f, ip_inv s -> ip_inv (ip_deliver_bad s f).
+Proof.
+  intros s f H. unfold ip_deliver_bad. destruct (i_closed s); [exact H|].
+  destruct (opens _ f).
+  - apply ip_inv_close. eapply ip_inv_accept; [..|exact H]; reflexivity.
+  - apply ip_inv_close. revert H. apply ip_inv_same; reflexivity.
+Qed.
+
 Lemma ip_inv_deliver_at : forall s i, ip_inv s -> ip_inv (ip_deliver_at s i).
 Proof.
   intros s i H. unfold ip_deliver_at. apply ip_inv_deliver. revert H. apply ip_inv_same; reflexivity.
@@ -99,6 +107,7 @@ Proof.
   intros s e H. destruct e; cbn [ip_step]; try exact H; try (apply ip_inv_deliver_at; exact H).
   - destruct (i_closed s); (eapply ip_inv_send; [..|exact H]; reflexivity).
   - destruct (i_closed s); (eapply ip_inv_send; [..|exact H]; reflexivity).
+  - apply ip_inv_deliver_bad. revert H. apply ip_inv_same; reflexivity.
   - destruct (i_ep s) eqn:E; [exact H|]. apply ip_inv_deliver. exact H.
   - apply ip_inv_deliver. revert H. apply ip_inv_same; reflexivity.
   - destruct (i_pend s); [exact H|]. revert H. apply ip_inv_same; reflexivity.
@@ -170,6 +179,18 @@ Proof.
   - split; [left; exact D|]. unfold ip_frozen; cbn -[under_ep under_ep_o nids chunks]. rewrite under_ep_o_snoc_other by exact N. repeat split.
 Qed.
 
+Lemma ip_dead_deliver_bad : forall s f e, ip_dead s e -> ip_dead (ip_deliver_bad s f) e /\ ip_frozen e s (ip_deliver_bad s f).
+Proof.
+  intros s f e D. unfold ip_deliver_bad. destruct (i_closed s) eqn:C; [split; [exact D|apply ip_frozen_refl]|].
+  destruct D as [D|[D1 D2]]; [|congruence].
+  assert (N : i_ep s <> e) by lia.
+  destruct (opens _ f).
+  - split; [left; exact D|]. unfold ip_frozen; cbn -[under_ep under_ep_o nids chunks].
+    rewrite under_ep_snoc_other, under_ep_o_snoc_other by exact N. repeat split.
+  - split; [left; exact D|]. unfold ip_frozen; cbn -[under_ep under_ep_o nids chunks].
+    rewrite under_ep_o_snoc_other by exact N. repeat split.
+Qed.
+
 Lemma ip_dead_step : forall s ev e, ip_dead s e -> ip_dead (ip_step s ev) e /\ ip_frozen e s (ip_step s ev).
 Proof.
   intros s ev e D.
@@ -189,6 +210,8 @@ Proof.
       repeat split.
     + destruct D as [D|[D1 D2]]; [|congruence]. split; [left; exact D|].
       unfold ip_frozen; cbn -[under_ep under_ep_o nids chunks]. rewrite under_ep_nids_other by lia. repeat split.
+  - (* NextBad *)
+    apply (ip_dead_deliver_bad (ip_setsrv s (S (i_srv s))) (Genuine ((i_ep s, A2C), i_srv s)) e). exact D.
   - (* ReplayOld *)
     destruct (i_ep s) eqn:E; [split; [exact D|apply ip_frozen_refl]|].
     apply ip_dead_deliver. exact D.
@@ -277,6 +300,20 @@ Proof.
     + right. split; [|reflexivity]. apply in_outs_ep in I. congruence.
 Qed.
 
+Lemma ip_finv_deliver_bad : forall s f, ip_finv s -> ip_finv (ip_deliver_bad s f).
+Proof.
+  intros s f F. unfold ip_deliver_bad. destruct (i_closed s) eqn:C; [exact F|].
+  destruct (opens _ f).
+  - apply ip_finv_close. revert F. apply ip_finv_keep; [reflexivity|cbn; congruence|].
+    intros e H. left. cbn in H. rewrite failed_in_acc in H. apply failed_in_open in H.
+    destruct H as [H|(o & [<-|[]] & _ & E2)]; [exact H|discriminate].
+  - revert F. apply ip_finv_keep; [reflexivity|reflexivity|].
+    intros e H. cbn in H. apply failed_in_out in H. destruct H as [H|(o & I & E1 & _)].
+    + apply failed_in_open in H. destruct H as [H|(o & [<-|[]] & E1 & _)]; [left; exact H|].
+      right. split; [symmetry; exact E1|reflexivity].
+    + right. split; [|reflexivity]. apply in_outs_ep in I. congruence.
+Qed.
+
 Lemma ip_dead_le : forall s e, ip_dead s e -> e <= i_ep s.
 Proof. intros s e [D|[D _]]; lia. Qed.
 
@@ -302,6 +339,8 @@ Proof.
     + apply failed_in_out in H. destruct H as [H|(o & I & E1 & _)].
       * left. rewrite failed_in_wire, failed_in_seal in H. exact H.
       * right. split; [|reflexivity]. destruct I as [<-|I]; [symmetry; exact E1|]. apply in_outs_ep in I. congruence.
+  - (* NextBad *)
+    apply ip_finv_deliver_bad. revert F. apply ip_finv_samelog; reflexivity.
   - (* ReplayOld *)
     destruct (i_ep s) eqn:E; [exact F|]. apply ip_finv_deliver. exact F.
   - (* Corrupt *)
